@@ -12,13 +12,31 @@ query: {"sp": [step ..], "cells": name, "args": [canon ..], "kw": {name: canon}}
 step:  {"attr": name} | {"item": [canon ..], "via": "call" | "getitem" | "kw", "names": [..]}
 
 One JSON line per job on stdout: {"id": .., "import": "ok" | "err <kind>", "results": [canon-result ..]}
-Values are canonicalised (see `canon`): ints, bools, None, strings, tuples/lists/dicts of those;
-anything else becomes {"other": <type name>}; floats are never produced by the generator and
-are reported as {"other": "float"}.
+Values are canonicalised (see `canon`): ints, bools, None, strings, floats (by `repr`, so nan
+equals nan and -0.0 differs from 0.0), complex, bytes, tuples/lists/dicts/sets of those; OBJECTS
+whose type is not exactly one of these (instances of subclasses of int/float/str/..., enum members,
+numpy scalars and arrays, dataclass-like instances, a few standard value types) become
+{"obj": <module.qualname of the exact type>, ...what identifies the value...}, so that a package
+that returns a plain 0.05 where the model returns a Percent(0.05) is seen to differ;
+anything else becomes {"other": <type name>} (never compared at top level).
 """
 import importlib
 import json
 import sys
+
+
+_BASES = (("int", int, int.__int__), ("float", float, float.__float__), ("str", str, str.__str__),
+          ("complex", complex, complex.__complex__ if hasattr(complex, "__complex__") else complex),
+          ("bytes", bytes, bytes.__bytes__ if hasattr(bytes, "__bytes__") else bytes),
+          ("tuple", tuple, tuple), ("list", list, list), ("dict", dict, dict),
+          ("frozenset", frozenset, frozenset), ("set", set, set))
+_REPR_TYPES = {"decimal.Decimal", "fractions.Fraction", "datetime.date", "datetime.datetime", "datetime.time",
+               "datetime.timedelta", "builtins.range", "builtins.ellipsis", "builtins.NotImplementedType",
+               "builtins.slice"}
+
+
+def _qual(t):
+    return "%s.%s" % (getattr(t, "__module__", "?"), getattr(t, "__qualname__", t.__name__))
 
 
 def canon(v, depth=0):
@@ -31,6 +49,12 @@ def canon(v, depth=0):
         return {"i": str(v)} if abs(v) > 2 ** 52 else v
     if t is str:
         return {"s": v}
+    if t is float:
+        return {"f": repr(v)}
+    if t is complex:
+        return {"c": repr(v)}
+    if t is bytes:
+        return {"b": v.hex()}
     if t is tuple:
         return {"t": [canon(x, depth + 1) for x in v]}
     if t is list:
@@ -39,6 +63,40 @@ def canon(v, depth=0):
         return {"d": [[canon(k, depth + 1), canon(x, depth + 1)] for k, x in v.items()]}
     if t is set or t is frozenset:
         return {"set": sorted(json.dumps(canon(x, depth + 1), sort_keys=True) for x in v)}
+    try:
+        return _canon_obj(v, t, depth)
+    except Exception:      # noqa: BLE001 - an object that cannot be described is opaque
+        return {"other": t.__name__}
+
+
+def _canon_obj(v, t, depth):
+    """an object whose exact type is not one of the plain ones: the type's qualified name plus what
+    identifies the value; {"other": name} when nothing value-like is known about it"""
+    q = _qual(t)
+    if isinstance(v, type):
+        return {"obj": "type", "name": _qual(v)}
+    if t.__name__ == "module" and t.__module__ == "builtins":
+        return {"obj": "module", "name": v.__name__}
+    import enum
+    if isinstance(v, enum.Enum):
+        return {"obj": q, "enum": str(v.name), "val": canon(v.value, depth + 1)}
+    if t.__module__ == "numpy" and hasattr(v, "dtype") and hasattr(v, "tolist"):
+        if hasattr(v, "shape") and t.__name__ == "ndarray":
+            return {"obj": q, "dtype": v.dtype.name, "shape": [int(n) for n in v.shape],
+                    "val": canon(v.tolist(), depth + 1)}
+        return {"obj": q, "dtype": v.dtype.name, "val": canon(v.item(), depth + 1)}
+    for name, base, conv in _BASES:
+        if isinstance(v, base):
+            res = {"obj": q, "base": canon(conv(v), depth + 1), "str": str(v)}
+            d = getattr(v, "__dict__", None)
+            if d:
+                res["attrs"] = canon(dict(d), depth + 1)
+            return res
+    if q in _REPR_TYPES:
+        return {"obj": q, "repr": repr(v)}
+    import dataclasses
+    if dataclasses.is_dataclass(v):
+        return {"obj": q, "attrs": canon(dict(vars(v)), depth + 1)}
     return {"other": t.__name__}
 
 
@@ -49,6 +107,8 @@ def uncanon(c):
         return int(c["i"])
     if "s" in c:
         return c["s"]
+    if "f" in c:
+        return float(c["f"])
     if "t" in c:
         return tuple(uncanon(x) for x in c["t"])
     if "l" in c:
@@ -110,6 +170,7 @@ def main(argv):
                 root = mod.mx_model
             except BaseException as e:      # noqa: BLE001
                 rec["import"] = "err " + err_kind(e)
+                rec["error"] = ("%s: %s" % (type(e).__name__, e))[:300]
                 root = None
             if root is not None:
                 for q in job["queries"]:
